@@ -737,12 +737,14 @@ def parse_static_calldefs(source=None, fpath=None):
     """
     if source is None:  # pragma: no branch
         try:
-            with open(fpath, 'rb') as file_:
-                source = file_.read().decode('utf-8')
+            # Decode the way the interpreter does (PEP 263 coding cookie, BOM)
+            import tokenize
+            with tokenize.open(fpath) as file_:
+                source = file_.read()
         except Exception:
             try:
                 with open(fpath, 'rb') as file_:
-                    source = file_.read()
+                    source = file_.read().decode('utf-8')
             except Exception:
                 print('Unable to read fpath = {!r}'.format(fpath))
                 raise
